@@ -100,6 +100,34 @@ pub fn xml(ctx: &Ctx) {
     run(ctx, Knobs { xml_lexical: true, proto_attrs: true, ..Knobs::NONE });
 }
 
+/// wide documents: 120 point clouds and 100 images, i.e. several hundred sibling elements, records
+/// and blob descriptors (with the empty-element lexical variant several hundred empty elements in
+/// a row), under the XML lexical and omitted-attribute deviations
+pub fn wide(ctx: &Ctx) {
+    let mut sc = scene(5);
+    let c0 = sc.clouds[1].clone();
+    let i0 = sc.images[1].clone();
+    sc.clouds.clear();
+    sc.images.clear();
+    for k in 0..120 {
+        let mut c = c0.clone();
+        c.meta.guid = Some(format!("cloud-{k}"));
+        c.points.truncate(1 + k % 2);
+        c.records = c.points.len() as u64;
+        sc.clouds.push(c);
+    }
+    for k in 0..100 {
+        let mut i = i0.clone();
+        i.guid = Some(format!("image-{k}"));
+        sc.images.push(i);
+    }
+    let kn = Knobs { xml_lexical: true, proto_attrs: false, ..Knobs::NONE };
+    if let Some((enc, exp)) = model_file(ctx, &sc, kn) {
+        judge(ctx, 105, &enc, &exp);
+        ctx.nontrivial();
+    }
+}
+
 /// the largest legal data packet: one 8-bit record, first packet of 65524 / 65528 stream bytes
 /// (packet length 65532 / 65536 = the maximum the 16-bit length field can express)
 pub fn maxpacket(ctx: &Ctx) {
